@@ -47,6 +47,7 @@ type In struct {
 	Arch    string            // amd64 | i386 | kfreebsd-amd64 (or a name the alphabet audit supplied)
 	Alias   map[string]string `json:",omitempty"` // alphabet audit: default name (src-a, bin-a1, otherpkg, zlib1g-dev) -> name used instead, in text AND model
 	Extra   []string          `json:",omitempty"` // alphabet audit: extra unknown fields "Name: value" written into every .dsc
+	Seq     []In              `json:",omitempty"` // call sequence: these models are ordered one after the other on one goroutine (the other fields are unused)
 	Perm    []int             // input slice order: position p holds source Perm[p]
 }
 
@@ -694,6 +695,23 @@ func (in In) rowKey(i int) string {
 	for j := 0; j < in.N; j++ {
 		b = append(b, byte(in.NB[j]), byte(in.Dep[i][j]), byte(in.Field[i][j]), byte(in.Deco[i][j]))
 	}
+	if len(in.Alias) > 0 || len(in.Extra) > 0 {
+		ks := make([]string, 0, len(in.Alias))
+		for k := range in.Alias {
+			ks = append(ks, k)
+		}
+		sort.Strings(ks)
+		for _, k := range ks {
+			b = append(b, 0)
+			b = append(b, k...)
+			b = append(b, '=')
+			b = append(b, in.Alias[k]...)
+		}
+		for _, x := range in.Extra {
+			b = append(b, 1)
+			b = append(b, x...)
+		}
+	}
 	return string(b)
 }
 
@@ -822,6 +840,9 @@ func parsedArch(name string) (dependency.Arch, error) {
 // check is THE oracle: a plain function of the input (cache only memoises per-row work: ParseDsc of the
 // rendered text and the model edges of that row).
 func check(scen string, in In, cache parseCache) verdict {
+	if len(in.Seq) > 0 {
+		return checkSeq(scen, in, cache)
+	}
 	in = in.norm()
 	if !in.valid() {
 		return verdict{class: "invalid-input"}
@@ -1333,6 +1354,7 @@ func Run(r *mc.Run) {
 		// n = 4: every graph, every input order, default rendering (plain names: the architecture is irrelevant)
 		explore(r, scen{name: "graphs-n4-k0", n: 4, k: 0, perms: permutations(4), archSet: []string{"amd64"}, maxDeps: -1, decoN: nBasic})
 	}
+	callSequences(r)
 	auditScenarios(r)
 	r.Extra["distinct_dsc_texts_parsed_with_ParseDsc"] = atomic.LoadInt64(&textsParsed)
 	r.Extra["map_orders"] = map[string]interface{}{"how": mapOrderNote, "executions_under_alternative_orders": atomic.LoadInt64(&mapOrderExecs), "calls_that_hit_the_cap_of_2000": atomic.LoadInt64(&mapOrderCapped)}
